@@ -106,6 +106,7 @@ func c04(r *ev.Result, tier string) {
 	exploreProfiles(r, budget, c04Profiles(isQuick(tier))...)
 	/* The HTTP seam: the same clauses through the real handlers over TLS. */
 	c04HTTP(r)
+	c04Events(r)
 	quietSpell(r, "C04")
 	c04ManyShells(r, 1100)
 	/* The real binary under every boolean flag: three shells in a row. */
